@@ -126,8 +126,8 @@ def run(chk, model_ok=True):
 
     # 1. cipher objects alone
     st = streams.Streams(chk, model_ok)
-    pe = lines_privenc(rng, 150 if quick else 4000)
-    pd, want = lines_privdec(rng, 300 if quick else 8000)
+    pe = lines_privenc(rng, 600 if quick else 12000)
+    pd, want = lines_privdec(rng, 1200 if quick else 24000)
     st.add("privenc", pe)
     st.add("privdec", pd)
     st.run()
@@ -161,7 +161,7 @@ def run(chk, model_ok=True):
             fail(f"agent-encrypted response decrypted to {out[:120]} instead of {w[:120]}", ln)
     st.diff("privenc/privdec")
     # 2. sessions: whatever was sent or received before, incl. long runs of unanswered requests
-    n_hist = 24 if quick else 400
+    n_hist = 96 if quick else 1200
     all_sess = []
     n_req = n_resp = 0
     hist = {}
